@@ -603,6 +603,8 @@ def _sig(e, params_positional=True):
         return e[1].split("::")[-1]
     if k == "fn":
         return "fn:" + mir.short(e[1])
+    if k == "static":
+        return "static:" + e[1].split("::")[-1]
     if k == "field":
         return "%s.%s" % (_sig(e[1]), e[2])
     if k == "vfield":
